@@ -15,14 +15,16 @@ RULE = ("Hypothesis-drawn chain states (forked histories under short retarget pe
         "(fees 0 .. all-but-one) x clocks (assembly time from head-30 to head+10^4, found time >= assembly time, the clock "
         "ticking every 0/1/3/40 attempts) with, in 30% of the cases, a third peer whose connection is being torn down at the "
         "instant of the broadcast, and in 30% the networking thread being inside a store flush when the find is handed to the store "
-        "(schedule injection). The REAL "
+        "(schedule injection), and in 25% a valid block relayed just before the find whose flush fails once with an I/O error (injected "
+        "below the store). The REAL "
         "MinerWatcher.handle_request_scrypt_input_message / handle_scrypt_output_message run on an instance wired to a simulated "
         "node with two greeted peers and the real block store; the harness plays the miner process (summary hash per nonce) "
         "until a block is found. Oracle: the found block is reference-valid at the found-time clock and accepted by add_block; "
         "its reward is exactly one output of subsidy_ref(h) + reference fees to the miner's key; timestamp > parent's; it "
         "contains the pooled transactions; afterwards ChainManager.coinstate contains it as head, the reopened store holds it "
         "byte-identically, and every active peer got exactly one unsolicited block message carrying it; in half of the cases a "
-        "second miner then reports a winning candidate on the SAME parent: that block, which does not extend the head, must be in "
+        "second mining process (its candidates requested through the real request handler BEFORE the first find) then reports a "
+        "winning candidate on the SAME parent: that block, which does not extend the head, must be in "
         "the served state (head unchanged), stored and broadcast once. non-trivial = find with "
         ">= 1 pooled transaction or an assembly clock <= the head's time or a head at a retarget boundary; distinct = digest of "
         "the case.")
@@ -30,6 +32,7 @@ ASSUMPTIONS = ["sequential hand-over (no real thread races between miner, watche
                "simnet transport model; test configuration (fast scrypt stand-in through the same code path)"]
 MIN_NONTRIVIAL = {"quick": 80, "thorough": 2000}
 F2 = "C12-F2:candidate-time-ahead-of-own-clock"
+F3 = "C12-F3:found-block-shares-a-transaction-id-with-a-stored-block"
 
 
 class Q:
@@ -42,6 +45,16 @@ class Q:
 
 class NT:
     pass
+
+
+def margs(mw, i=0):
+    """(summary, height, transactions) of the candidate miner i is working on -- found by type, so that extra bookkeeping
+    fields in the watcher's record do not break the harness"""
+    rec = mw.mining_args[i]
+    summary = next(x for x in rec if hasattr(x, "nonce") and hasattr(x, "previous_block_hash"))
+    height = next(x for x in rec if isinstance(x, int) and not isinstance(x, bool))
+    txs = next(x for x in rec if isinstance(x, list))
+    return summary, height, txs
 
 
 def execute(case):
@@ -103,6 +116,39 @@ def execute(case):
             # longer registered, so queuing a message for it fails -- the other peers must still get the block
             dead = peers.pop(1)
             node.lp.selector.unregister(dead.node_sock)
+        if case.get("net_flush_fails") and not deep:
+            # environment fault just BEFORE the find: a peer relays a valid block P, the node adopts it, but the flush that
+            # follows fails once (disk I/O error; the per-connection catch-all swallows it, that peer is dropped).  The miner
+            # then finds its block on top of P: both must be in the store afterwards.
+            plabel = next(l for l, x in run.world.blocks.items() if x.id() == head.id)
+            P = run.world.build_block({"label": "netP", "parent": plabel, "miner": 6, "dt": run.world.safe_dt(head, 40), "txs": []})
+            if P is not None and not led.validate(P, P.ts):
+                orig_write = store.write_blocks_to_disk
+                fired = {}
+
+                def failing_write(blocks):
+                    if not fired:
+                        fired["x"] = 1
+                        raise OSError(5, "Input/output error")
+                    return orig_write(blocks)
+
+                store.write_blocks_to_disk = failing_write
+                simnet.CLOCK.now = max(simnet.CLOCK.now, P.ts)
+                try:
+                    peers[0].send(M.DataMessage(M.DATA_BLOCK, b.to_sk_block(P)))
+                    peers[0].deliver()
+                    net.drain(None, only=[node])
+                finally:
+                    store.write_blocks_to_disk = orig_write
+                if fired and P.id() in node.cm.coinstate.block_by_hash:
+                    run.world.accept("netP", P)
+                    head = led.nodes[P.id()]
+                    cs = node.cm.coinstate
+                    info["net_flush_failures"] = 1
+                    if not peers[0].connected:
+                        peers[0] = simnet.Wire(net, node, host="10.0.3.9")
+                        peers[0].greet(nonce=990)
+                del net.escaped[:]
         # pool through the node's own admission
         spendable = sorted((r, o) for r, o in head.utxo.items() if o[0] >= 2 and any(k.pub == o[1] for k in KEYS))
         fees = 0
@@ -146,6 +192,24 @@ def execute(case):
         marks = [len(w.received) for w in peers]
         found = None
         err = None
+        pending1 = None
+        if case.get("second_find") and not deep:
+            # a SECOND miner process (-n 2) asks for candidates on the same head until it holds a winning one; its answer is
+            # reported only after the first process's find (below)
+            from skepticoin.datatypes import Block as _B1, BlockHeader as _BH1
+            mw.send_queues.append(Q())
+            simnet.CLOCK.now = t_asm
+            for nonce1 in range(case["nonce0"] + 100_000, case["nonce0"] + 160_000):
+                with env.quiet():
+                    mw.handle_request_scrypt_input_message(1, nonce1 & 0xFFFFFFFF)
+                _mt, (s1, h1) = mw.send_queues[1].items[-1]
+                del mw.send_queues[1].items[:]
+                sh1 = C.construct_summary_hash(s1, h1)
+                txs1 = margs(mw, 1)[2]
+                b1 = _B1(_BH1(s1, C.construct_pow_evidence_after_scrypt(sh1, mw.coinstate, s1, h1, txs1)), txs1)
+                if b1.hash() < s1.target:
+                    pending1 = (sh1, b1)
+                    break
         tick_every = case.get("tick_every", 0)
         t_asm0 = t_asm
         for n_try, nonce in enumerate(range(case["nonce0"], case["nonce0"] + 60_000)):
@@ -164,9 +228,9 @@ def execute(case):
             race = None
             if case.get("net_flush_race") and not deep:
                 # is this nonce a find?  (same computation as the handler)  If so, stage the race first.
-                ev_ = C.construct_pow_evidence_after_scrypt(sh, mw.coinstate, summary, height, mw.mining_args[0][2])
+                ev_ = C.construct_pow_evidence_after_scrypt(sh, mw.coinstate, summary, height, margs(mw)[2])
                 from skepticoin.datatypes import Block as _B, BlockHeader as _BH
-                if _B(_BH(summary, ev_), mw.mining_args[0][2]).hash() < summary.target:
+                if _B(_BH(summary, ev_), margs(mw)[2]).hash() < summary.target:
                     race = stage_net_flush_race(store, run, led, head, b, info)
             try:
                 with env.quiet():
@@ -177,15 +241,15 @@ def execute(case):
                 if deep and isinstance(e, KeyError) and "chain_at_hash" in exc_sig(e):
                     # harness artefact: the handler's very last statement (wallet balance) walks the ancestors, which a
                     # fabricated deep base does not have; everything the property talks about has happened before
-                    found = ("ok", mw.mining_args[0][0], mw.mining_args[0][2], sh)
+                    found = ("ok", margs(mw)[0], margs(mw)[2], sh)
                     break
                 err = e
                 # the candidate the handler was working on
-                s2, h2, txs2 = mw.mining_args[0]
+                s2, h2, txs2 = margs(mw)
                 found = ("raised", s2, txs2, sh)
                 break
             if mw.coinstate is not state_before or mw.public_key != miner_key:
-                found = ("ok", mw.mining_args[0][0], mw.mining_args[0][2], sh)
+                found = ("ok", margs(mw)[0], margs(mw)[2], sh)
                 break
         if found is None:
             raise env.HarnessError("no block found in 60000 nonces")
@@ -242,7 +306,8 @@ def execute(case):
                 from vf.props.c08 import faulty_model
                 model = faulty_model([led.nodes[i].blk for i in led.order] + [plain])
                 if disk.get(bid) == model.get(bid) and disk.get(bid) is not None:
-                    info["c08_f1_seen"] = 1        # a pooled transaction's id is already stored with a block of another fork: C08's known finding, not judged here
+                    info["c08_f1_seen"] = 1        # a pooled transaction's id is already stored with a block of another fork (root cause C08-F1)
+                    fail("known", F3, "the found block contains a pending transaction that is already stored with a block of a competing branch; the store returns it with that block only, so the found block is not stored faithfully (%s)" % tag)
                 else:
                     fail("adopt", "found-block-not-in-store", "the reopened store does not hold the found block byte-identically (%s)" % tag)
         net.drain(None, only=[node])
@@ -267,7 +332,7 @@ def execute(case):
             except Exception as e:
                 fail("next", "next-candidate-raised:" + exc_sig(e), "assembling the next candidate after a find raised %r (%s)" % (e, tag))
         if case.get("second_find") and not fails and not deep:
-            second_find(case, mw, node, peers, net, led, plain, t_found, d, fail, info)
+            second_find(case, mw, node, peers, net, led, plain, t_found, d, fail, info, pending1)
         return fails, info
     finally:
         BS.DefaultBlockStore.instance = old_default
@@ -324,7 +389,7 @@ def stage_net_flush_race(store, run, led, head, b, info):
     return finish
 
 
-def second_find(case, mw, node, peers, net, led, first, t_found, d, fail, info):
+def second_find(case, mw, node, peers, net, led, first, t_found, d, fail, info, pending1=None):
     """a second miner process reports a winning candidate that was assembled on the SAME parent as the block just found:
     a found block that does not extend the head must still become part of the served state, be stored and broadcast"""
     from vf import simnet, build as b
@@ -342,7 +407,10 @@ def second_find(case, mw, node, peers, net, led, first, t_found, d, fail, info):
     from skepticoin.signing import SECP256k1PublicKey
     from vf.keys import KEYS
     found = None
-    for nonce in range(case["nonce0"] + 100_000, case["nonce0"] + 160_000):
+    if pending1 is not None:
+        found = (None, None, None, pending1[0], pending1[1])
+        info["second_find_through_request_handler"] = 1
+    for nonce in ([] if pending1 is not None else range(case["nonce0"] + 100_000, case["nonce0"] + 160_000)):
         summary, height, txs = C.construct_block_pow_evidence_input(view, [b.to_sk_tx(t) for t in first.txs[1:]], SECP256k1PublicKey(KEYS[6].pub), first.ts, b"", nonce & 0xFFFFFFFF)
         sh = C.construct_summary_hash(summary, height)
         ev = C.construct_pow_evidence_after_scrypt(sh, view, summary, height, txs)
@@ -355,8 +423,9 @@ def second_find(case, mw, node, peers, net, led, first, t_found, d, fail, info):
     summary, height, txs, sh, blk = found
     if blk.hash() == first.id():
         return
-    mw.send_queues.append(Q())
-    mw.mining_args[1] = (summary, height, txs)
+    if pending1 is None:
+        mw.send_queues.append(Q())
+        mw.mining_args[1] = (summary, height, txs)
     for w in peers:
         w.collect()
     marks = [len(w.received) for w in peers]
@@ -378,11 +447,20 @@ def second_find(case, mw, node, peers, net, led, first, t_found, d, fail, info):
     with env.quiet():
         s2 = BS.BlockStore(os.path.join(d, "chain.db"))
     try:
-        disk = {x.hash() for x in s2.read_blocks_from_disk()}
+        disk = {x.hash(): x.serialize() for x in s2.read_blocks_from_disk()}
     finally:
         s2.close()
-    if bid not in disk:
-        fail("adopt", "side-branch-find-not-in-store", "the second found block was not written to the block store")
+    plain2 = b.from_sk_block(blk)
+    if disk.get(bid) != plain2.raw():
+        # two miner processes pay the same key with the same reward data: their sibling blocks contain the IDENTICAL reward
+        # transaction, which is exactly the situation of the recorded store finding C08-F1 -- recognised through C08's model
+        from vf.props.c08 import faulty_model
+        model = faulty_model([led.nodes[i].blk for i in led.order] + [first, plain2])
+        if disk.get(bid) == model.get(bid):
+            info["c08_f1_seen"] = info.get("c08_f1_seen", 0) + 1
+            fail("known", F3, "a second mining process reported a winning candidate on the same parent as the block just found: both blocks carry the identical reward transaction, the store keeps it with the first only, and the second found block is not stored faithfully")
+        else:
+            fail("adopt", "side-branch-find-not-in-store", "the second found block was not written to the block store byte-identically")
     net.drain(None, only=[node])
     for k, w in enumerate(peers):
         w.collect()
@@ -408,7 +486,7 @@ def run(shard, tier, seed):
         case = chainexec.gen_case(rnd, cfg if deepd is None else chainexec.CFGS[3], nb, 0.0, ["C01"], deep=deepd, p_tx=0.6, p_fork=0.3)
         case.update(asm_off=asm_off, found_delay=found_delay, n_pool=n_pool, fee_sel=fee_sel, nonce0=rnd.randrange(1 << 32),
                     second_find=rnd.random() < 0.5, tick_every=rnd.choice([0, 0, 1, 3, 40]), dead_peer=rnd.random() < 0.3,
-                    next_request=rnd.random() < 0.6, net_flush_race=rnd.random() < 0.3)
+                    next_request=rnd.random() < 0.6, net_flush_race=rnd.random() < 0.3, net_flush_fails=rnd.random() < 0.25)
         try:
             fails, info = execute(case)
         except env.HarnessError as e:
@@ -423,6 +501,7 @@ def run(shard, tier, seed):
         res.count("second_finds_on_same_parent", info.get("second_find", 0))
         res.count("c08_f1_seen(not judged)", info.get("c08_f1_seen", 0))
         res.count("net_flush_races", info.get("net_flush_races", 0))
+        res.count("net_flush_failures_before_the_find", info.get("net_flush_failures", 0))
         if info["pool"] or info["early_clock"] or info["boundary"]:
             res.nontrivial(env.digest(case))
         if res.evaluations in (1, 9):
